@@ -207,6 +207,13 @@ func (routes RouteList) Compile(logger *zap.Logger, matchingTimeout time.Duratio
 			}
 			// end of match
 			if lastMatchedRouteIdx == len(routes)-1 {
+				if lastMatchedRouteIdx < 0 {
+					// an empty route list: no route matched, so the matching deadline is still set
+					err = cx.Conn.SetReadDeadline(time.Time{})
+					if err != nil {
+						return err
+					}
+				}
 				// next is called because if the last handler is terminal, it's already returned
 				return next.Handle(cx)
 			}
